@@ -29,6 +29,9 @@ def check(ctx):
     unconditional(ctx, P, views, iters)
     free_server_search(ctx, P, views, iters)
     restart_attaches(ctx, P, views, iters)
+    # the customer must arrive at the next node as a waiting customer (no stale server marker), or that node's dispatch does not see it (shared instance)
+    from . import c01
+    c01.no_touch_after_handover(ctx, P, views, iters)
     ctx.assume("built-in disciplines only (custom service disciplines are excluded by the property)")
 
 
